@@ -711,6 +711,22 @@ func specDeref(o Object) Object {
 	return o
 }
 
+// specClosureOf: o is a function value made from constant fn that captured
+// numFree variables.
+func specClosureOf(o Object, fn Object, numFree int) bool {
+	c, ok := o.(*CompiledFunction)
+	f, ok2 := fn.(*CompiledFunction)
+	return ok && ok2 && c != nil && f != nil && len(c.Free) == numFree &&
+		c.NumParams == f.NumParams && c.NumLocals == f.NumLocals && c.Variadic == f.Variadic &&
+		verifrt.SameRef(c.Instructions, f.Instructions)
+}
+
+// specCaptured: free variable k of closure o is the very box found in slot.
+func specCaptured(o Object, k int, slot Object) bool {
+	c, ok := o.(*CompiledFunction)
+	return ok && c != nil && 0 <= k && k < len(c.Free) && Object(c.Free[k]) == slot
+}
+
 // specIsBoxed: the slot holds a captured (boxed) local.
 func specIsBoxed(o Object) bool {
 	_, ok := o.(*ObjectPtr)
